@@ -1,3 +1,4 @@
+import WS.Lemmas.ViolProgram
 import WS.Lemmas.AuditGaps
 import WS.Lemmas.HdrLogic
 import WS.Lemmas.ReaderRejects
@@ -135,6 +136,28 @@ theorem bad_close_utf8_rejected (c : Conn) (hc : AtBoundary c) (hw : WHealthy c.
       c'.w.writeErr = some .closeSent := by
   first | exact AuditGaps.bad_close_utf8_rejected .. | (apply AuditGaps.bad_close_utf8_rejected <;> assumption)
 
+
+open WS.Codec WS.ReaderDecodes WS.ReadProgram WS.CutProgram in
+/-- C04 for EVERY read program (`runProg`, C03.any_read_program), delivery clause: whole conformant
+    messages, then a frame whose header violates framing at a message boundary (any of the violations of
+    `Violates`), then ANY bytes; whatever sequence of NextReader / Read(k) calls the application makes —
+    also after the error —, with or without a healthy writer: the messages its trace reports as complete
+    (`C05`'s `completed`) form a sublist of the whole messages, in order. Nothing from the violating frame
+    or after it is ever delivered as a message, and everything delivered is byte-identical.
+    PARTIAL with respect to the full statement `violation_program` (kept, commented, in
+    WS/Lemmas/ViolProgram.lean; not refuted): proved when every whole message is within the read limit, and
+    without the second conjunct of the full statement (the handlers saw only control frames of the whole
+    messages — at the level of one call that is `nextReader_violation` / `read_violation_mid_message`:
+    `hlog` unchanged). -/
+theorem violation_program_fits_completed_partial (c : Conn) (hc : ReaderIdle c) (msgs : List (Nat × List PFrame))
+    (hm : ∀ m ∈ msgs, (m.1 = 1 ∨ m.1 = 2) ∧ MsgShape m.1 m.2 ∧ (dataPayload m.2).length < 2 ^ 62 ∧
+      (c.r.limit ≤ 0 ∨ ((dataPayload m.2).length : Int) ≤ c.r.limit))
+    (b0 b1 : UInt8) (tail : Bytes)
+    (hv : Violates c.r.isServer c.r.nego false (parseHdr b0 b1))
+    (hp : c.r.buf.pending = (msgs.map (fun m => encAll c.r.isServer m.2)).flatten ++ b0 :: b1 :: tail)
+    (ops : List ROp) :
+    List.Sublist (completed (runProg ops c none).1) (msgs.map (fun m => (m.1, dataPayload m.2))) := by
+  first | exact WS.ViolProgram.violation_program_fits_completed_partial .. | (apply WS.ViolProgram.violation_program_fits_completed_partial <;> assumption)
 
 /-! ### non-vacuity -/
 section NonVacuity
@@ -344,6 +367,44 @@ example : ∃ msg c', advanceFrame witSrvBadUtf8 = (.error (.protocol msg), c') 
 example : (nextReader witSrvBadClose).2.r.readErr = some (.protocol "bad close code 1005") ∧
     (nextReader witCliBadClose).2.r.readErr = some (.protocol "bad close code 999") ∧
     (nextReader witSrvBadUtf8).2.r.readErr = some (.protocol "invalid utf8 payload in close frame") := by decide
+
+section Program
+open WS.ReadProgram WS.CutProgram
+
+/-- a text message "Hi" from a server, unfragmented -/
+def witHi : List PFrame := [{ op := 1, fin := true, key := default, payload := [0x48, 0x69] }]
+
+def witHi_shape : MsgShape 1 witHi := MsgShape.single _ rfl rfl (by decide)
+
+/-- an idle client reader facing "Hi", then a frame with RSV2 set claiming 3 bytes, then a perfectly
+    well-formed text frame "ok" that must never be delivered -/
+def witViolAfter : Conn :=
+  { w := { newW false 4096 false false with keys := [1, 2, 3, 4] },
+    r := { isServer := false, nego := false,
+           buf := { size := 4096, buf := [0x81, 0x02, 0x48],
+                    t := { chunks := [[0x69, 0xA1, 0x03, 0x61], [0x62, 0x63, 0x81, 0x02, 0x6f, 0x6b]] }, total := 15 } } }
+
+def witViolAfter_idle : ReaderIdle witViolAfter :=
+  ⟨rfl, rfl, rfl, ⟨by decide, by decide, by decide, (by intro e h; cases h)⟩, by decide, by decide,
+    (by intro id h; cases h), (by intro id h; cases h)⟩
+
+def witViolProg : List ROp := [.next, .read 0, .read 7, .read 7, .next, .read 7, .next, .read 7]
+
+/-- non-vacuity of `violation_program_fits_completed_partial`: all hypotheses hold -/
+example : List.Sublist (completed (runProg witViolProg witViolAfter none).1) [(1, dataPayload witHi)] :=
+  violation_program_fits_completed_partial witViolAfter witViolAfter_idle [(1, witHi)]
+    (by
+      intro m hm
+      simp only [List.mem_cons, List.mem_nil_iff, or_false] at hm
+      subst hm
+      exact ⟨Or.inl rfl, witHi_shape, by decide, Or.inl (by decide)⟩)
+    0xA1 0x03 [0x61, 0x62, 0x63, 0x81, 0x02, 0x6f, 0x6b]
+    (Or.inl (by decide)) (by decide) witViolProg
+
+/-- what the trace reports: "Hi" and nothing else — not the well-formed "ok" behind the violation -/
+example : completed (runProg witViolProg witViolAfter none).1 = [(1, [0x48, 0x69])] := by decide +kernel
+
+end Program
 
 end NonVacuity
 
